@@ -213,7 +213,7 @@ P("C19",
           "op=push-hostile:oversize-manifest": 10, "op=push-signature:at-manifest-cap": 5, "list-refused:oversize-manifest": 10})
 
 P("C20",
-  technique="stateful model-based PBT (rapid state machine Install/Uninstall/Get/List) over a real plugin root with generated script plugins; own semver-precedence implementation; tree-snapshot oracle and metamorphic source-shape relations",
+  technique="stateful model-based PBT (rapid state machine Install/Uninstall/Get/List) over a real plugin root with generated script plugins; own semver-precedence implementation; tree-snapshot oracle and metamorphic source-shape relations; differential PBT and native fuzz of the version comparison (verif-tag export) against that implementation",
   level_text="Exploration over install/uninstall histories with versions chosen to separate precedence from string order and source shapes (file/dir, candidates, extra files, sub-directories); refused installs must leave the tree identical.",
   level_note="Plugins are generated shell scripts (the manager only needs an executable printing metadata); trusts the harness's semver implementation (written from semver.org section 11).",
   health={"op=install": 100, "install=refused": 30, "install=replaced": 20, "install=fresh": 30, "over-existing": 30,
@@ -221,7 +221,9 @@ P("C20",
           "dir-nested-name-collision": 10, "dir-nonexec-candidate": 10, "dir-two-candidates": 10,
           "op=uninstall": 20, "uninstall=installed": 10, "op=get": 20, "op=list": 20,
           "version-relation=lt": 10, "version-relation=eq": 10, "version-relation=gt": 10, "version-relation=invalid": 10,
-          "shape:subdirs": 10, "shape:extra-files": 10},
+          "shape:subdirs": 10, "shape:extra-files": 10, "semver-pair-valid": 5000, "semver-pair-with-invalid": 2000,
+          "semver-equal-but-different-text": 200, "semver-with-prerelease": 2000},
+  fuzz=[{"name": "FuzzC20_Semver", "seconds": 120}],
   timeout={"quick": 900, "thorough": 5400})
 
 
